@@ -33,6 +33,7 @@ class TemplateInfo:
     tree: nodes.Template
     lang: str
     macros: dict[str, nodes.Macro] = field(default_factory=dict)
+    canon: dict = field(default_factory=dict)
 
 
 @dataclass
@@ -97,7 +98,16 @@ class JinjaIndex:
                 tree = self.env.parse(src, name=name, filename=str(p))
             except Exception as e:  # noqa: BLE001
                 raise AnalysisError(f"cannot parse template {name}: {e}") from e
+            # template-bound variables are renamed to role names in the AST (sa/jinja_canon.py): nothing downstream depends on
+            # how a template spells its own loop / set variables
+            from .jinja_canon import canonicalise
+
+            try:
+                canon = canonicalise(tree)
+            except Exception as e:  # noqa: BLE001
+                raise AnalysisError(f"cannot canonicalise template {name}: {type(e).__name__}: {e}") from e
             ti = TemplateInfo(name, p, src, tree, LX.language_of(name))
+            ti.canon = canon
             for m in tree.find_all(nodes.Macro):
                 ti.macros[m.name] = m
             self.templates[name] = ti
@@ -477,7 +487,10 @@ class JinjaInterp:
                 self.undefined_names[(ti.name, self.cur_macro, f"import {expr_text(n.template)}")] = \
                     f"imported template(s) do not exist: {missing}"
             env[n.target] = AV(funcs=frozenset(("tplmod", x) for x in names if x in self.jx.templates))
-            env["__corr__" + n.target] = AV(consts=frozenset({expr_text(n.template)}))
+            # the variable X of `import "dir/" + X.template as alias`, taken from the AST (its spelling is arbitrary)
+            gs = [g for g in [n.template] + list(n.template.find_all(nodes.Getattr)) if isinstance(g, nodes.Getattr) and g.attr == "template"]
+            xs = [expr_text(g.node) for g in gs]
+            env["__corr__" + n.target] = AV(consts=frozenset(xs[:1]))
             return state
         if isinstance(n, nodes.FromImport):
             tv = self.ev(n.template, env)
@@ -654,14 +667,9 @@ class JinjaInterp:
         corr = env.get("__corr__" + alias)
         if corr is None or not corr.consts:
             return
-        text = next(iter(corr.consts))
-        # text looks like ('property_templates/' + property.template)
-        import re as _re
-
-        m = _re.search(r"\+ ([A-Za-z_][A-Za-z_0-9]*)\.template\)", text)
-        if not m or m.group(1) not in env:
+        var = next(iter(corr.consts))
+        if var not in env:
             return
-        var = m.group(1)
         tnames = {f[1].rsplit("/", 1)[-1] for f in funcs}
         keep = frozenset(t for t in env[var].types if self._template_of_class(t) in tnames)
         if keep:
@@ -832,10 +840,7 @@ class JinjaInterp:
         if isinstance(n.node, nodes.Getattr) and isinstance(n.node.node, nodes.Name):
             c = env.get("__corr__" + n.node.node.name)
             if c is not None and c.consts:
-                import re as _re
-
-                m = _re.search(r"\+ ([A-Za-z_][A-Za-z_0-9.]*)\.template\)", next(iter(c.consts)))
-                corr_var = m.group(1) if m else None
+                corr_var = next(iter(c.consts))
         for fn in f.funcs:
             kind = fn[0]
             if kind == "macro":
